@@ -298,29 +298,41 @@ Matches(x, ranges) ==
   \E i \in 1..Len(ranges) : \E t \in IndexedTerms(x) : TermEnumerated(t, ranges[i])
 
 (* Cost of termRange.Enumerate.  `next = incrementBytes(next)' adds one to   *)
-(* the term read as a number in base BB = 256 (not base 2^G: the 8th bit of *)
-(* every byte takes part), until next > endTerm; the loop body runs          *)
-(* end - start + 1 times.  SubBytes is the base-BB subtraction with borrow. *)
+(* the last byte (all BB = 256 values, also the invalid ones >= 2^G); an     *)
+(* overflowing byte carries; an INTERIOR byte (neither the shift byte nor    *)
+(* the last byte) that becomes >= 2^G is reset and carries at once (repair   *)
+(* of the enumeration blow-up, /repo bec9de5: before it every byte counted   *)
+(* in base 256 and a range across a carry through j all-ones groups cost     *)
+(* 128*256^(j-1) steps).  On valid terms the walk therefore counts in a      *)
+(* mixed radix: BB for the first and last position, 2^G in between, and the  *)
+(* loop body runs end - start + 1 times in that number system.               *)
 BB == 2 * 2^G
+Radix(i, n) == IF i > 1 /\ i < n THEN 2^G ELSE BB
+
+RECURSIVE CarryStop(_, _, _)     \* largest j <= i where the carry stops, 0 if it runs out
+CarryStop(t, i, n) ==
+  IF i = 0 THEN 0
+  ELSE IF t[i] + 1 >= Radix(i, n) THEN CarryStop(t, i-1, n) ELSE i
 IncBytes(t) ==                                    \* incrementBytes
-  LET nf == {j \in 1..Len(t) : t[j] # BB-1}
-  IN IF nf = {} THEN [n \in 1..Len(t) |-> 0]
-     ELSE LET j == MaxOf(nf)
-          IN [n \in 1..Len(t) |-> IF n = j THEN t[n] + 1 ELSE IF n > j THEN 0 ELSE t[n]]
-RECURSIVE SubBytes(_, _, _, _)
-SubBytes(a, b, i, borrow) ==                      \* a - b on positions 1..i
+  LET n == Len(t)
+      j == CarryStop(t, n, n)
+  IN [p \in 1..n |-> IF p = j THEN t[p] + 1 ELSE IF p > j THEN 0 ELSE t[p]]
+
+RECURSIVE SubBytes(_, _, _, _, _)
+SubBytes(a, b, i, n, borrow) ==                   \* a - b on positions 1..i, mixed radix
   IF i = 0 THEN <<>>
   ELSE IF a[i] >= b[i] + borrow
-       THEN SubBytes(a, b, i-1, 0) \o <<a[i] - b[i] - borrow>>
-       ELSE SubBytes(a, b, i-1, 1) \o <<a[i] + BB - b[i] - borrow>>
-(* iterations of the loop from start to end are at most limit (< BB^3)     *)
+       THEN SubBytes(a, b, i-1, n, 0) \o <<a[i] - b[i] - borrow>>
+       ELSE SubBytes(a, b, i-1, n, 1) \o <<a[i] + Radix(i, n) - b[i] - borrow>>
+(* iterations of the loop from start to end (valid terms) are at most limit  *)
+(* (limit < BB^3)                                                            *)
 EnumWithin(start, end, limit) ==
   BytesLess(end, start) \/
     LET n == Len(start)
-        d == SubBytes(end, start, n, 0)
+        d == SubBytes(end, start, n, n, 0)
         low(i) == IF i < 1 THEN 0 ELSE d[i]
     IN /\ \A i \in 1..(n-3) : d[i] = 0
-       /\ low(n-2) * BB * BB + low(n-1) * BB + low(n) + 1 <= limit
+       /\ low(n-2) * Radix(n-1, n) * BB + low(n-1) * BB + low(n) + 1 <= limit
 RngEnumWithin(r, limit) == EnumWithin(RngStart(r), RngEnd(r), limit)
 
 -----------------------------------------------------------------------------
